@@ -99,6 +99,59 @@ def other_stdout():
         yield
 
 
+SETTINGS = ('default', 'warnings-as-errors', 'fp-raise', 'fp-ignore')
+_settings_turn = [0]
+
+
+@contextlib.contextmanager
+def settings(kind):
+    """Global settings a caller may legitimately have chosen around a library call: Python warnings turned into
+    exceptions, NumPy floating-point errors raised or ignored.  What the statements promise does not depend on them."""
+    import warnings
+    if kind == 'default':
+        yield
+    elif kind == 'warnings-as-errors':
+        with warnings.catch_warnings():
+            warnings.simplefilter('error')
+            yield
+    elif kind == 'fp-raise':
+        with np.errstate(all='raise'):
+            yield
+    elif kind == 'fp-ignore':
+        with np.errstate(all='ignore'):
+            yield
+    else:
+        raise ValueError(kind)
+
+
+def next_settings(ctx, allowed=SETTINGS):
+    """Settings in rotation (every kind is reached whatever the seed)."""
+    _settings_turn[0] += 1
+    kind = allowed[_settings_turn[0] % len(allowed)]
+    ctx.hit('settings:' + kind)
+    return kind
+
+
+def under(ctx, kind, fn, *args, retry=True, **kwargs):
+    """Call fn under the caller settings `kind`.  When the call is refused there with a Warning or a FloatingPointError
+    (which only exists because of those settings) and retry is set, the caller does what callers do: it catches the
+    exception and calls again, on the same objects, with default settings - and that second call is the one whose result
+    is judged.  With retry=False the exception propagates (sites where the unchanged library is known to stay silent:
+    being refused there IS the observation)."""
+    import warnings
+    try:
+        with settings(kind):
+            return fn(*args, **kwargs)
+    except (Warning, FloatingPointError) as exc:
+        if kind == 'default' or not retry:
+            raise
+        ctx.count(f'refused_under_{kind}:{type(exc).__name__}')
+        ctx.hit('recovery:refused-under-caller-settings-then-called-again')
+        with warnings.catch_warnings():
+            warnings.simplefilter('default')
+            return fn(*args, **kwargs)
+
+
 class Ctx:
     """What one run (or one shard of a run) observed."""
 
